@@ -52,6 +52,23 @@ CLAIMS = {
              "termination/safety of evaluation beyond what C04/C05 decide for well-formed tables.",
         note=TRUST + "cfitsio reports malformed HDUs through its status argument.",
         technique="typestate dataflow + required-guard dominance (relational normal forms), status known-zero pruning of infeasible returns"),
+    "C15": dict(
+        text="Decides, on the instantiated permuteDimensions, that every per-dimension member (set derived from clear()) is rewritten, that all "
+             "attribute gathers use one (i, permutation[i]) index pair and are copied back to the member they came from, that the inverse map "
+             "is built as inv[permutation[i]] = i and used only to scatter coefficients onto the new strides, that strides are recomputed from "
+             "the permuted axes, that the argument is validated as a permutation before any member write, and that nothing raising follows the "
+             "first member write. Identities by declaration, not by name. Does not decide the index arithmetic over runtime shapes nor the "
+             "inverse round trip.",
+        note=TRUST,
+        technique="AST shape/agreement rules with alpha-normalised locals, field-coverage derived from clear(), typestate window"),
+    "C16": dict(
+        text="Decides: the whole auxiliary-key API instantiates; write_key decides every rejection before any allocation or store; one reserved-"
+             "keyword predicate is shared by write_key, both reader passes and countAuxKeywords, and the passes skip the same cards in the same "
+             "order; the predicate (its strncmp/strcmp tests applied abstractly) covers the keys the writer emits itself and the structural "
+             "header keywords; the size_t length arithmetic cannot wrap (affine bound from the dominating guard); write_key/remove_key never "
+             "leave a modified store unprotected. Does not decide the ordered-map semantics over operation histories.",
+        note=TRUST + "Structural keyword table (SIMPLE, BITPIX, NAXIS*, EXTEND, END) is the trusted list of cards cfitsio writes itself.",
+        technique="compile witness (driver unit), effect ordering on the CFG, sibling-loop agreement, abstract evaluation of the predicate, affine interval check"),
 }
 
 NOT_APPLICABLE = {
@@ -62,4 +79,4 @@ NOT_APPLICABLE = {
 
 # properties whose check is designed (DESIGN.md §4) but not yet built in this tree
 PENDING = {p: "static check designed in DESIGN.md §4 but not built yet in this tree; not claimed until it runs"
-           for p in ("C02", "C03", "C04", "C05", "C06", "C10", "C11", "C14", "C15", "C16", "C19")}
+           for p in ("C02", "C03", "C04", "C05", "C06", "C10", "C11", "C14", "C19")}
